@@ -180,6 +180,30 @@ func runC10(c *core.Ctx) {
 	if c.Batch < c.Pick(2, 6) {
 		c10Overflow(c, c.Batch)
 	}
+	if c.Batch >= 8 && c.Batch-8 < len(faultWhens) && c.Only < 0 {
+		when := faultWhens[c.Batch-8]
+		if _, ok := c.CaseRng(9500, "injected read error when="+when); ok {
+			r, inj, ok := runFault(c, when)
+			if ok {
+				c.Count("fault_sessions", 1)
+				c.Count("reads_made_to_fail", int64(inj))
+				c.Eval(1)
+				c.Distinct("fault", when)
+				if inj > 0 && len(r.Errors) == 0 {
+					c.Violate("genuine-failure-not-reported", fmt.Sprintf("%d read(2) calls on the inotify descriptor failed with EIO (injected, when=%s) and nothing arrived on Errors", inj, when), r)
+				}
+				if !r.ErrorsAreEIO {
+					c.Violate("wrong-error-reported", fmt.Sprintf("errors reported for an injected EIO do not wrap it: %v", r.Errors), r)
+				}
+				if r.Events < r.Expected || !r.LateEventSeen || r.AddAfter != "" || r.RemoveAfter != "" {
+					c.Violate("watcher-did-not-survive-read-error", fmt.Sprintf("after %d injected read errors: %d of %d events delivered, event of a directory added afterwards seen=%v, Add=%q Remove=%q", inj, r.Events, r.Expected, r.LateEventSeen, r.AddAfter, r.RemoveAfter), r)
+				}
+				if c.Batch == 8 {
+					c.Sample(map[string]interface{}{"injected_read_errors": inj, "session": r})
+				}
+			}
+		}
+	}
 }
 
 func c10Overflow(c *core.Ctx, idx int) {
